@@ -89,6 +89,7 @@ type Obs struct {
 	Writer  map[string][]SideRec // "node:shard" -> streams
 	Scan    map[string][]SideRec
 	Calls   map[string]int
+	Counter int64 // UserCalls.Value(Result.Scope())
 	Wall    float64
 }
 
@@ -223,6 +224,7 @@ func RunOnce(sess *Sess, p Prog, cacheDir string, timeout time.Duration) (o Obs,
 	default:
 		o.Err = "ok"
 		Observe(ctx, r.res, schemas[len(schemas)-1], run, &o)
+		o.Counter = UserCalls.Value(r.res.Scope())
 		res = r.res
 	}
 	rec.mu.Lock()
